@@ -142,7 +142,33 @@ def _assign_case(seed):
     rng2 = random.Random(seed * 7919 + 13)
     if rng2.random() < .1:
         kind = "alt_terminal_exon"
-    if kind == "alt_terminal_exon":
+    rng4 = random.Random(seed * 15485863 + 11)
+    early_polya = rng4.random() < .06
+    if early_polya:
+        # the only isoform has two further exons behind the read's polyA tail, the last of them short (8-40 bp): a transcript end two exons
+        # and hundreds of bases before the annotated one is an alternative polyA site, however short the last annotated exon is (own
+        # generator and own gene: earlier seeds keep their cases)
+        k = rng4.randint(4, 6)
+        q, ex = 1000, []
+        for _ in range(k):
+            a = q + rng4.randint(300, 900)
+            b = a + rng4.randint(100, 260)
+            ex.append((a, b))
+            q = b
+        short = rng4.randint(8, 40)
+        strand = rng4.choice("+-")
+        if strand == "+":
+            ex[-1] = (ex[-1][0], ex[-1][0] + short - 1)
+            read = ex[:-2]
+            read[-1] = (read[-1][0], read[-1][1] - rng4.randint(0, 30))
+        else:
+            ex[0] = (ex[0][1] - short + 1, ex[0][1])
+            read = ex[2:]
+            read[0] = (read[0][0] + rng4.randint(0, 30), read[0][1])
+        isoforms, single, near = [("T1", strand, ex)], True, False
+        gi = H.gene_info_of(isoforms, params.delta)
+        tid, exons, kind = "T1", ex, "early_polya_two_exons_missing"
+    elif kind == "alt_terminal_exon":
         # all inner exons of T, but the first (or last) exon lies 800-3000 bp further out, not overlapping T's terminal exon: an alternative
         # first / last exon, a structural difference far beyond every tolerance whatever its length
         if len(exons) < 3:
@@ -202,7 +228,9 @@ def _assign_case(seed):
     # a polyA tail at the read's 3' end (polyT head for a '-' isoform): documented as tolerated; it must not turn a distant 5' end or any
     # other structural difference into a consistent assignment either
     polya = (-1, -1, -1, -1)
-    tail = rng.random() < .5 and read is not None and kind in ("exact", "jitter", "distant_5p_end", "intron_retention", "skipped_exon", "novel_exon", "novel_intron_in_exon")
+    if early_polya:
+        polya = (read[-1][1] - rng4.randint(0, 3), -1, -1, -1) if strand == "+" else (-1, read[0][0] + rng4.randint(0, 3), -1, -1)
+    tail = not early_polya and rng.random() < .5 and read is not None and kind in ("exact", "jitter", "distant_5p_end", "intron_retention", "skipped_exon", "novel_exon", "novel_intron_in_exon")
     if tail:
         if strand == "+":
             polya = (read[-1][1] - rng.randint(0, 3), -1, -1, -1)
@@ -286,7 +314,7 @@ def replay_assign(d):
 @bounded("C01.assigner_end_to_end", ["C01"], shards=14, note="random genes (1-3 isoforms over a shared exon pool) and reads derived from an isoform: "
          "exact, truncated at either end, junctions jittered within delta -> the real LongReadAssigner must report a consistent type, the "
          "isoform among the matches when the read is full-length, and a unique assignment when it is the only isoform; reads with a "
-         "retained intron (>= 300 bp), >= 100 intronic bases retained at a read end, a 5' end 300-900 bp outside the isoform, an unannotated 70-200 bp intron inside an exon, a skipped exon (>= 150 bp) or an extra exon relative to the only isoform must never be consistent; "
+         "retained intron (>= 300 bp), >= 100 intronic bases retained at a read end, a 5' end 300-900 bp outside the isoform, an unannotated 70-200 bp intron inside an exon, a skipped exon (>= 150 bp), a polyA tail two exons before the annotated end (the last annotated exon 8-40 bp) or an extra exon relative to the only isoform must never be consistent; "
          "all four matching presets; half of the full-length reads carry a polyA tail / polyT head at their 3' end")
 def c01_e2e(tier, rng):
     n = 1500 if tier == "quick" else 60000
